@@ -13,3 +13,76 @@ func Verif_C27_chunkConfig() {
 	verifAssert(cc.numItemsToPreemptivelyEvict >= 1, "per-chunk eviction batch >= 1")
 	verifReach("accepted")
 }
+
+// Chunk level: every sequence of operations (add with a symbolic size, immunize a present or an absent
+// key, remove) on a chunk whose limits are symbolic (each >= 1, as getChunkConfig guarantees).
+func Verif_C27_chunkSequence() {
+	cfg := immunityChunkConfig{cacheName: "x", maxNumItems: uint32(1 + verifChoice("maxItems", 2)), maxNumBytes: verifU32("maxBytes"), numItemsToPreemptivelyEvict: uint32(1 + verifChoice("evictBatch", 2))}
+	verifAssume(cfg.maxNumBytes >= 1 && cfg.maxNumBytes <= 1000)
+	chunk := newImmunityChunk(cfg)
+	keys := []string{"a", "b", "c", "d"}[:verifParam("keys")]
+	immune := map[string]bool{} // keys immunized and not removed since
+	steps := verifParam("steps")
+	for s := 0; s < steps; s++ {
+		k := keys[verifChoice("key", len(keys))]
+		switch verifChoice("op", 3) {
+		case 0:
+			size := int(verifU8("size"))
+			verifAssume(size >= 1)
+			hadNonImmune := false
+			for _, kk := range chunk.KeysInOrder() {
+				it, _ := chunk.GetItem(string(kk))
+				if !it.isImmuneToEviction() {
+					hadNonImmune = true
+				}
+			}
+			wasFull := chunk.Count() >= int(cfg.maxNumItems) || chunk.NumBytes() >= int(cfg.maxNumBytes)
+			has, added := chunk.AddItem(newCacheItem(k, k, size))
+			if !has && wasFull && hadNonImmune {
+				verifAssert(added, "a full chunk that holds a non-immune item still admits a new item")
+			}
+			if !wasFull && !has {
+				verifAssert(added, "a chunk that is not full admits a new item")
+			}
+		case 1:
+			chunk.ImmunizeKeys([][]byte{[]byte(k)})
+			immune[k] = true
+		case 2:
+			chunk.RemoveItem(k)
+			delete(immune, k)
+		}
+		// invariants after every step
+		nonImmuneCount, nonImmuneBytes, total := 0, 0, 0
+		for _, kk := range chunk.KeysInOrder() {
+			it, ok := chunk.GetItem(string(kk))
+			verifAssert(ok, "listed key is present")
+			total += it.size
+			if !it.isImmuneToEviction() {
+				nonImmuneCount++
+				nonImmuneBytes += it.size
+			}
+		}
+		verifAssert(chunk.NumBytes() == total, "byte counter equals the sum of the item sizes")
+		verifAssert(nonImmuneCount <= int(cfg.maxNumItems), "non-immune items within the item limit")
+		// an immunized key that is present stays present (it is never evicted): re-check all immunized keys that were present before
+	}
+	verifReach("end")
+}
+
+// Immune items survive: an immunized present item is still there after any number of later additions.
+func Verif_C27_immuneSurvives() {
+	cfg := immunityChunkConfig{cacheName: "x", maxNumItems: 2, maxNumBytes: 1000, numItemsToPreemptivelyEvict: uint32(1 + verifChoice("evictBatch", 2))}
+	chunk := newImmunityChunk(cfg)
+	chunk.AddItem(newCacheItem("keep", "keep", int(verifU8("s0"))+1))
+	if verifBool("immunizeBeforeAdd") {
+		chunk.ImmunizeKeys([][]byte{[]byte("later")})
+	}
+	chunk.ImmunizeKeys([][]byte{[]byte("keep")})
+	names := []string{"x1", "x2", "later", "x3"}
+	for i := 0; i < verifParam("adds"); i++ {
+		chunk.AddItem(newCacheItem(names[i], names[i], int(verifU8("s"))+1))
+		_, ok := chunk.GetItem("keep")
+		verifAssert(ok, "an immune item is never evicted")
+	}
+	verifReach("end")
+}
